@@ -174,6 +174,13 @@ type Rig struct {
 	// otherwise the run goes on until RunTimeout (harness trouble, exit 2).
 	HangTimeout time.Duration
 	OnHang      func(stacks string) *Violation
+	// OnCrash, when set, is handed the log of a worker PROCESS that the Go
+	// runtime killed (unrecovered panic or fatal error on some goroutine) and
+	// may classify the crash as a violation of the property: ok=true with a
+	// stable key. The parent then writes a seed-only replay file, confirms it
+	// by regenerating the run in a fresh child process (which must die at the
+	// same site) and goes on with the next seed.
+	OnCrash func(log string) (class, key, msg string, ok bool)
 }
 
 var rigs = map[string]*Rig{}
